@@ -23,7 +23,7 @@ C09_OPS = {
     "tensordot": 8, "matmul": 3, "trace": 2, "einsum": 3,
     "multiply_diagonal": 3, "align_axes": 2, "sync_charges": 1, "fill_drop": 1,
     "arith2": 4, "arith1": 3, "unary": 4, "item": 2, "to_dense": 2,
-    "allclose": 2, "solve": 2, "phase": 6,
+    "allclose": 2, "solve": 2, "expm": 2, "phase": 6,
     "qr_recon": 2, "svd_recon": 2, "svdt_recon": 2, "eigh_recon": 2,
     "convert": 2, "tdot_scalar": 1, "div_arrays": 2, "boolreduce": 1, "stale": 3, "reassemble": 2, "factors": 3, "sparsity": 1, "reparam": 2, "align_inplace": 1,
 }
